@@ -33,7 +33,13 @@ ELECTION_MSGS = {"MsgVote", "MsgVoteResp", "MsgPreVote", "MsgPreVoteResp", "MsgT
 # votereset (vote kept across terms), prevoterecord (pre-vote grant recorded as vote) - both only make a
 # replica more reluctant; appliedcommit (Advance to commit) - skips entries, which no state invariant
 # of the model sees (the hand-out guard of ZRaftTrace does); truncbelowcommit - unreachable unless
-# another guard is broken.
+# another guard is broken; oldtermcommit (commit of old-term entries by counting) - the Figure-8 schedule
+# needs three leaderships with an isolated replica and >= 8 messages in flight with 3 servers: the bounded
+# instance with 6 messages completes (979 995 states) without reaching it (milestone probes: the
+# "leader of term 4 holding [t2, t4] while another replica holds [t3]" state only exists beyond the message
+# bound), with 8 messages the search passes 1.0 M distinct states at depth 15 in 10 min with the queue still
+# growing.  The guard is enforced by the trace layer at every step (MaybeCommit/Mci in `recv MsgAppResp` and
+# `applyconf`): the code mutant commit-oldterm is rejected in 11 of 20 quick traces.
 _Q = lambda f: QUICK_OVERRIDES[f]
 SPEC_MUTANTS = [
     ("voteonce", "MC_ZRaft_Election_00.cfg", "Q", "C01", 300),
@@ -45,12 +51,10 @@ SPEC_MUTANTS = [
     ("learnerpromotable", "MC_ZRaft_Conf.cfg", "Q", "C01", 300),
     ("learnervote", "MC_ZRaft_Conf.cfg", {}, "C01", 600),
     ("hbcommit", "MC_ZRaft_Log.cfg", {"MaxElect": "2", "MaxProp": "1", "MaxLog": "2", "FHeartbeat": "TRUE", "FSnap": "FALSE"}, "C02", 500),
-    ("prevterm", "MC_ZRaft_Log.cfg", {"MaxElect": "3", "MaxTerm": "4", "MaxLog": "2", "MaxProp": "0", "MaxMsgs": "3", "MaxDup": "0",
+    ("prevterm", "MC_ZRaft_Log.cfg", {"MaxElect": "3", "MaxTerm": "4", "MaxLog": "2", "MaxProp": "0", "MaxMsgs": "6", "MaxDup": "0",
                                       "MaxAppEnts": "8", "FResend": "FALSE", "FHeartbeat": "FALSE", "FSnap": "FALSE"}, "C02", 900),
-    ("oldtermcommit", "MC_ZRaft_Log.cfg", {"MaxElect": "4", "MaxTerm": "5", "MaxLog": "2", "MaxProp": "0", "MaxMsgs": "3", "MaxDup": "0",
-                                           "MaxAppEnts": "1", "FResend": "TRUE", "FHeartbeat": "FALSE", "FSnap": "FALSE"}, "C02", 1200),
-    ("hupconf", "MC_ZRaft_ConfShrink.cfg", {}, "C01", 600),
-    ("pendingconf", "MC_ZRaft_ConfShrink.cfg", {}, "C01", 600),
+    ("hupconf", "MC_ZRaft_ConfShrink.cfg", {}, "C01", 300),
+    ("pendingconf", "MC_ZRaft_ConfShrink.cfg", {}, "C01", 300),
 ]
 
 
@@ -260,15 +264,6 @@ def signature(events, v, c):
     if ev:
         voters = ev.get("post", {}).get("voters") or []
         sig["single_voter"] = len(voters) == 1
-        if ev.get("ev") == "unsettled":
-            # a replica that was started as learner, restarted as a non-learner, and is behind at the end
-            started_l = {e["n"] for e in events if e.get("ev") == "start" and e.get("b") == 1}
-            lost = {e["n"] for e in events if e.get("ev") == "restart" and e["n"] in started_l and not e["post"].get("isl")
-                    and e["n"] not in (e["post"].get("voters") or [])}
-            st = {o["from"]: o["idx"] for o in ev.get("out", [])}
-            top = max(st.values()) if st else 0
-            if any(n in st and st[n] < top for n in lost):
-                sig["restarted_learner_behind"] = True
         if ev.get("ev") == "panic":
             sig["panic"] = re.sub(r"[0-9]+", "N", ev.get("s", ""))[:80]
     return sig, ev
@@ -461,8 +456,7 @@ ASSUMPTIONS = [
     "(node/raft.go makes snapshot + hard state effectively atomic through wal.ValidSnapshotEntries); restart uses "
     "Applied = 0 after dropping everything at or below the storage snapshot (what startRaft/replayWAL do); the variant "
     "'restart with the true applied index' is not exercised",
-    "replica ids are not reused: a replica whose removal was proposed is never added again (re-adding a still running, "
-    "removed voter as learner leaves it unable to restore the leader's snapshot - liveness only, outside C01-C03)",
+    "replica ids are not reused: a replica whose removal was proposed is never added again",
     "the leader is never asked to remove itself (the driver stops a replica when it applies its own removal, as the "
     "data node does; a leader that stops before the others learn the commit index can leave a group that cannot elect - "
     "observed once with a lagging promoted learner, liveness only)",
@@ -527,6 +521,17 @@ def run_check(ctx, prop):
             st2 = dict(n=4, voters=[1, 2, 3], learners=[], prevote=False, cq=False, maxsz=0, maxcsz=0,
                        storage="rocks-mem", profile="noconf", steps=1200)
             conformance(ctx, zr, prop, [("rocks-snapshot-over-longer-log", st2, 3006)], stats, samples, par=1)
+        if prop in ("C02", "C03"):
+            # snapshot over a divergent tail (scenarioSnapshotOverDivergentTail, three variants per run):
+            # 5 voters, three leaderships, the returning replica's log is longer than the snapshot with a
+            # higher-term divergent tail / of equal length / shorter.  The restore rule of ZRaft
+            # (HandleSnapshot): ignore at or below commit, fast-forward the commit index ONLY on
+            # matchTerm(index, term), otherwise replace the log.
+            sd = [("snapshot-divergent-tail-%d" % k,
+                   dict(n=5, voters=[1, 2, 3, 4, 5], learners=[], prevote=(k % 2 == 1), cq=False, maxsz=1 << 20, maxcsz=1,
+                        storage=["memory", "rocks-pebble", "rocks-mem"][k % 3], profile="snapdiv", steps=150),
+                   ctx.seed * 1000 + 800 + k) for k in range(2 if quick else 6)]
+            conformance(ctx, zr, prop, sd, stats, samples, par=2 if quick else 6)
         if prop in ("C01", "C03"):
             # grow from one voter + old snapshot + restart (scenarioGrowOne).  The group is a single-voter
             # group for a while, so the one invariant of the open finding raft-single-voter-commit-before-
@@ -537,12 +542,12 @@ def run_check(ctx, prop):
                                          profile="growone", steps=250, allow1=True, tracecfg="ZRaftTrace_growone.cfg"),
                   ctx.seed * 1000 + 900 + k) for k in range(2 if quick else 8)]
             conformance(ctx, zr, prop, g, stats, samples, par=2 if quick else 6)
-        before = stats["rejected"]
         if prop == "C03":
-            iso3 = dict(n=4, voters=[1, 2, 3], learners=[4], prevote=False, cq=True, maxsz=0, maxcsz=1,
-                        storage="memory", profile="mixed", steps=600, noavoid=True)
-            conformance(ctx, zr, prop, [("restarted-learner-isolate", iso3, 8025)], stats, samples, par=1, expect_sig=True)
-        stats["isolate_rejected"] += stats["rejected"] - before
+            # formerly the isolate stage of finding raft-restarted-learner-rejects-snapshot (fixed in
+            # 81aef80): a learner that restarts before its storage names it must catch up by snapshot
+            st3 = dict(n=4, voters=[1, 2, 3], learners=[4], prevote=False, cq=True, maxsz=0, maxcsz=1,
+                       storage="memory", profile="mixed", steps=600)
+            conformance(ctx, zr, prop, [("restarted-learner-catches-up", st3, 8025)], stats, samples, par=1)
 
     for _ in V.parallel(lambda f: f(), [do_model, do_traces], n=2):
         pass
